@@ -16,6 +16,19 @@ fn main() {
                 }
             }
         }
+        Some("plan") => {
+            let prop = args.get(2).expect("property id");
+            let tier = args.get(3).map(|s| s.as_str()).unwrap_or("quick");
+            let spec = vx_core::plans::plan(prop, tier).expect("plan");
+            let n: usize = spec.jobs.iter().map(|j| j.programs.len()).sum();
+            println!("{} jobs, {} program x config items; {}", spec.jobs.len(), n, spec.rule_text);
+            if let Some(k) = args.get(4).and_then(|s| s.parse::<usize>().ok()) {
+                for j in spec.jobs.iter().step_by((spec.jobs.len() / k).max(1)) {
+                    println!("  {}", j.programs[j.programs.len() / 2].short());
+                }
+            }
+            0
+        }
         Some("replay") => vx_core::check::replay_main(args.get(2).expect("replay file")),
         _ => {
             eprintln!("usage: vx-sched check <ID> <quick|thorough> | replay <file> | worker");
